@@ -54,7 +54,7 @@ EXTENDS Integers, Sequences, FiniteSets, TLC, Json
 CONSTANTS Items,        \* 1..N
           Foreign,      \* foreign thread names; "F" is one of them (it also runs the part before the loop starts)
           Variants,     \* the variants explored (chosen in Init)
-          OwnSets,      \* the sets of foreign threads that run an event loop of their own (chosen in Init)
+          OwnSets(_, _), \* variant, scenario -> the sets of foreign threads that run an event loop of their own (chosen in Init)
           Family(_)     \* variant -> set of scenarios [Items -> item scenario]
 
 LT == "L"       \* the thread that runs the loop
@@ -209,7 +209,7 @@ TsRel(i) == scn[i].k = "ts" /\ scn[i].d > 0
 
 MechInit == /\ variant \in Variants
             /\ scn \in Family(variant)
-            /\ own \in OwnSets
+            /\ own \in OwnSets(variant, scn)
             /\ hs = IF LScript(scn) = <<>> THEN <<>> ELSE <<H("drv", 0, 0)>>      \* loop.call_soon(driver) before the start
             /\ ready = IF LScript(scn) = <<>> THEN <<>> ELSE <<1>>
             /\ timers = {}
